@@ -1,1 +1,535 @@
-(** Proofs/ParsersProofs.v — placeholder, to be written. *)
+(** Proofs/ParsersProofs.v — lemmas about the context parsers of Model/Parsers.v. *)
+From Coq Require Import Lia.
+From PV Require Import Parsers.
+Open Scope string_scope.
+Open Scope nat_scope.
+
+(** * Specification vocabulary *)
+
+(** String-keyed association lists and their embedding into dicts. *)
+Definition alist := list (string * val).
+Definition skv (qs : alist) : dict := map (fun p => (VStr (fst p), snd p)) qs.
+
+Fixpoint aget (k : string) (qs : alist) : option val :=
+  match qs with
+  | [] => None
+  | (k', v) :: r => if String.eqb k k' then Some v else aget k r
+  end.
+
+(** The value of the LAST pair with key [k]. *)
+Fixpoint last_assoc (k : string) (ps : alist) : option val :=
+  match ps with
+  | [] => None
+  | (k', v) :: r =>
+      match last_assoc k r with
+      | Some w => Some w
+      | None => if String.eqb k k' then Some v else None
+      end
+  end.
+
+(** Each key once, at the position of its FIRST occurrence. *)
+Fixpoint dedup (l : list string) : list string :=
+  match l with
+  | [] => []
+  | x :: r => x :: filter (fun y => negb (String.eqb x y)) (dedup r)
+  end.
+
+Definition has_eq (s : string) : bool := contains_char eq_char s.
+Definition no_eq (s : string) : bool := negb (has_eq s).
+
+Definition key_of (s : string) : string := fst (kv_of s).
+Definition kvs (s : string) : string * val := (fst (kv_of s), VStr (snd (kv_of s))).
+
+Fixpoint total_length (l : list string) : nat :=
+  match l with [] => 0 | x :: r => String.length x + total_length r end.
+
+(** * partition *)
+Lemma partition_first_app c a b :
+  contains_char c a = false -> partition_first c (a ++ String c b) = (a, true, b).
+Proof.
+  induction a as [|d r IH]; simpl; intros H.
+  - now rewrite Ascii.eqb_refl.
+  - apply orb_false_iff in H as [H1 H2]. rewrite H1, (IH H2). reflexivity.
+Qed.
+
+Lemma partition_first_none c s :
+  contains_char c s = false -> partition_first c s = (s, false, "").
+Proof.
+  induction s as [|d r IH]; simpl; intros H; [reflexivity|].
+  apply orb_false_iff in H as [H1 H2]. rewrite H1, (IH H2). reflexivity.
+Qed.
+
+Lemma partition_first_found c s a f b :
+  partition_first c s = (a, f, b) -> f = contains_char c s.
+Proof.
+  revert a f b; induction s as [|d r IH]; simpl; intros a f b H.
+  - now inversion H.
+  - destruct (Ascii.eqb c d); [now inversion H|].
+    destruct (partition_first c r) as [[a' f'] b'] eqn:P. inversion H; subst.
+    simpl. eapply IH; eauto.
+Qed.
+
+Lemma kv_of_split a b : has_eq a = false -> kv_of (a ++ String eq_char b) = (a, b).
+Proof. intros H. unfold kv_of. now rewrite (partition_first_app _ _ _ H). Qed.
+
+Lemma kv_of_bare s : has_eq s = false -> kv_of s = (s, "").
+Proof. intros H. unfold kv_of. now rewrite (partition_first_none _ _ H). Qed.
+
+Lemma kv_of_key_no_eq s : has_eq (fst (kv_of s)) = false.
+Proof.
+  unfold kv_of, has_eq. destruct (partition_first eq_char s) as [[a f] b] eqn:P. simpl.
+  eapply partition_first_before_nosep; eauto.
+Qed.
+
+(** every string is of one of the two forms *)
+Lemma kv_of_cases s :
+  (has_eq s = false /\ kv_of s = (s, "")) \/
+  (exists a b, s = a ++ String eq_char b /\ has_eq a = false /\ kv_of s = (a, b)).
+Proof.
+  unfold kv_of, has_eq. destruct (partition_first eq_char s) as [[a f] b] eqn:P.
+  destruct f.
+  - right. exists a, b. split; [eapply partition_first_join; eauto|].
+    split; [eapply partition_first_before_nosep; eauto|reflexivity].
+  - left. destruct (partition_first_nosep _ _ _ _ P) as (-> & -> & H). auto.
+Qed.
+
+(** * dict operations under string keys *)
+Lemma val_eqb_str_inv a x : val_eqb (VStr a) x = true -> x = VStr a.
+Proof.
+  destruct x; simpl; try discriminate. intros H. apply String.eqb_eq in H. now subst.
+Qed.
+
+Lemma dict_get_set_str k k' v d :
+  dict_get (VStr k) (dict_set (VStr k') v d)
+  = if String.eqb k k' then Some v else dict_get (VStr k) d.
+Proof.
+  induction d as [|[k0 v0] r IH].
+  - simpl. destruct (String.eqb k k'); reflexivity.
+  - cbn [dict_set]. destruct (val_eqb (VStr k') k0) eqn:E.
+    + apply val_eqb_str_inv in E. subst k0. cbn [dict_get].
+      change (val_eqb (VStr k) (VStr k')) with (String.eqb k k').
+      destruct (String.eqb k k'); reflexivity.
+    + cbn [dict_get]. destruct (val_eqb (VStr k) k0) eqn:E2.
+      * apply val_eqb_str_inv in E2. subst k0.
+        change (val_eqb (VStr k') (VStr k)) with (String.eqb k' k) in E.
+        rewrite String.eqb_sym in E. rewrite E. reflexivity.
+      * exact IH.
+Qed.
+
+Lemma dict_update_cons d p e : dict_update d (p :: e) = dict_update (dict_set (fst p) (snd p) d) e.
+Proof. reflexivity. Qed.
+
+Lemma dict_get_update_str k ps : forall d,
+  dict_get (VStr k) (dict_update d (skv ps))
+  = match last_assoc k ps with Some v => Some v | None => dict_get (VStr k) d end.
+Proof.
+  induction ps as [|[k' v] r IH]; intros d; [reflexivity|].
+  simpl skv. rewrite dict_update_cons. simpl fst; simpl snd. rewrite IH. simpl.
+  destruct (last_assoc k r); [reflexivity|].
+  rewrite dict_get_set_str. destruct (String.eqb k k'); reflexivity.
+Qed.
+
+Lemma last_assoc_app k (a b : alist) :
+  last_assoc k (a ++ b)%list = match last_assoc k b with Some w => Some w | None => last_assoc k a end.
+Proof.
+  induction a as [|[k' v] r IH]; simpl.
+  - destruct (last_assoc k b); reflexivity.
+  - rewrite IH. destruct (last_assoc k b); reflexivity.
+Qed.
+
+Lemma last_assoc_none k ps :
+  (forall p, In p ps -> fst p <> k) -> last_assoc k ps = None.
+Proof.
+  induction ps as [|[k' v] r IH]; intros H; [reflexivity|]. simpl.
+  rewrite IH by (intros p Hp; apply H; now right).
+  destruct (String.eqb k k') eqn:E; [|reflexivity].
+  apply String.eqb_eq in E. subst. exfalso. apply (H (k', v)); [now left|reflexivity].
+Qed.
+
+(** * The association-list view of dict construction *)
+Fixpoint aset (k : string) (v : val) (qs : alist) : alist :=
+  match qs with
+  | [] => [(k, v)]
+  | (k', v') :: r => if String.eqb k k' then (k', v) :: r else (k', v') :: aset k v r
+  end.
+
+Definition abuild (qs ps : alist) : alist :=
+  fold_left (fun acc p => aset (fst p) (snd p) acc) ps qs.
+
+Lemma dict_set_skv k v qs : dict_set (VStr k) v (skv qs) = skv (aset k v qs).
+Proof.
+  induction qs as [|[k' v'] r IH]; simpl; [reflexivity|].
+  destruct (String.eqb k k'); simpl; [reflexivity|]. now rewrite IH.
+Qed.
+
+Lemma dict_update_skv ps : forall qs, dict_update (skv qs) (skv ps) = skv (abuild qs ps).
+Proof.
+  induction ps as [|[k v] r IH]; intros qs; [reflexivity|].
+  simpl skv. rewrite dict_update_cons. simpl fst; simpl snd.
+  rewrite dict_set_skv. rewrite IH. reflexivity.
+Qed.
+
+Lemma dict_of_pairs_skv ps : dict_of_pairs (skv ps) = skv (abuild [] ps).
+Proof. exact (dict_update_skv ps []). Qed.
+
+Lemma dict_get_skv k qs : dict_get (VStr k) (skv qs) = aget k qs.
+Proof.
+  induction qs as [|[k' v] r IH]; simpl; [reflexivity|].
+  destruct (String.eqb k k'); [reflexivity|exact IH].
+Qed.
+
+Lemma dict_keys_skv qs : dict_keys (skv qs) = map VStr (map fst qs).
+Proof. unfold dict_keys, skv. rewrite !map_map. reflexivity. Qed.
+
+Definition kmem (k : string) (ks : list string) : bool := existsb (String.eqb k) ks.
+
+Lemma kmem_In k ks : kmem k ks = true <-> In k ks.
+Proof.
+  unfold kmem. rewrite existsb_exists. split.
+  - intros (x & Hx & E). apply String.eqb_eq in E. now subst.
+  - intros H. exists k. split; [exact H|apply String.eqb_refl].
+Qed.
+
+Lemma kmem_app k (a b : list string) : kmem k (a ++ b)%list = kmem k a || kmem k b.
+Proof. unfold kmem. apply existsb_app. Qed.
+
+Lemma aset_keys k v qs :
+  map fst (aset k v qs) = if kmem k (map fst qs) then map fst qs else (map fst qs ++ [k])%list.
+Proof.
+  induction qs as [|[k' v'] r IH]; simpl; [reflexivity|].
+  destruct (String.eqb k k') eqn:E; simpl; [reflexivity|].
+  rewrite IH. destruct (kmem k (map fst r)); reflexivity.
+Qed.
+
+Lemma aset_fresh k v qs : kmem k (map fst qs) = false -> aset k v qs = (qs ++ [(k, v)])%list.
+Proof.
+  induction qs as [|[k' v'] r IH]; simpl; intros H; [reflexivity|].
+  apply orb_false_iff in H as [H1 H2]. rewrite H1. now rewrite IH.
+Qed.
+
+Lemma filter_filter {A} (f g : A -> bool) l :
+  filter f (filter g l) = filter (fun x => g x && f x) l.
+Proof.
+  induction l as [|x r IH]; simpl; [reflexivity|].
+  destruct (g x); simpl; [destruct (f x); now rewrite IH|exact IH].
+Qed.
+
+Lemma filter_all {A} (f : A -> bool) l : (forall x, f x = true) -> filter f l = l.
+Proof. intros H. induction l as [|x r IH]; simpl; [reflexivity|]. now rewrite H, IH. Qed.
+
+(** Python dict order: existing keys keep their place, new keys are appended in order of
+    first occurrence. *)
+Lemma abuild_keys ps : forall qs,
+  map fst (abuild qs ps)
+  = (map fst qs ++ filter (fun y => negb (kmem y (map fst qs))) (dedup (map fst ps)))%list.
+Proof.
+  induction ps as [|[k v] r IH]; intros qs; simpl.
+  - now rewrite app_nil_r.
+  - unfold abuild in *. simpl. rewrite IH. rewrite aset_keys.
+    rewrite filter_filter.
+    destruct (kmem k (map fst qs)) eqn:M; simpl.
+    + f_equal. apply filter_ext. intros y.
+      destruct (String.eqb k y) eqn:E; simpl; [|reflexivity].
+      apply String.eqb_eq in E. subst. now rewrite M.
+    + rewrite <- app_assoc. simpl. f_equal. f_equal. apply filter_ext. intros y.
+      rewrite kmem_app. simpl. rewrite orb_false_r.
+      rewrite (String.eqb_sym y k). destruct (String.eqb k y); simpl.
+      * now rewrite orb_true_r.
+      * now rewrite orb_false_r.
+Qed.
+
+Lemma abuild_nil_keys ps : map fst (abuild [] ps) = dedup (map fst ps).
+Proof. rewrite abuild_keys. simpl. apply filter_all. reflexivity. Qed.
+
+Lemma NoDup_snoc {A} (x : A) l : NoDup l -> ~ In x l -> NoDup (l ++ [x])%list.
+Proof.
+  induction 1 as [|y l Hy ND IH]; simpl; intros Hx.
+  - constructor; [intros []|constructor].
+  - constructor.
+    + intros HI. apply in_app_or in HI as [HI|[HI|[]]]; [contradiction|].
+      subst. apply Hx. now left.
+    + apply IH. intros HI. apply Hx. now right.
+Qed.
+
+Lemma filter_all_in {A} (f : A -> bool) l : (forall x, In x l -> f x = true) -> filter f l = l.
+Proof.
+  induction l as [|x r IH]; simpl; intros H; [reflexivity|].
+  rewrite (H x) by now left. f_equal. apply IH. intros y Hy. apply H. now right.
+Qed.
+
+Lemma aset_nodup k v qs : NoDup (map fst qs) -> NoDup (map fst (aset k v qs)).
+Proof.
+  intros H. rewrite aset_keys. destruct (kmem k (map fst qs)) eqn:M; [exact H|].
+  apply NoDup_snoc; [exact H|]. intros HI. apply kmem_In in HI. congruence.
+Qed.
+
+Lemma abuild_nodup ps : forall qs, NoDup (map fst qs) -> NoDup (map fst (abuild qs ps)).
+Proof.
+  induction ps as [|[k v] r IH]; intros qs H; [exact H|].
+  unfold abuild in *. simpl. apply IH. now apply aset_nodup.
+Qed.
+
+(** writing a duplicate-free association list into a dict that has none of its keys appends it *)
+Lemma abuild_fresh ps : forall qs,
+  NoDup (map fst ps) -> (forall x, In x (map fst ps) -> kmem x (map fst qs) = false) ->
+  abuild qs ps = (qs ++ ps)%list.
+Proof.
+  induction ps as [|[k v] r IH]; intros qs ND H; simpl.
+  - now rewrite app_nil_r.
+  - unfold abuild in *. simpl. rewrite aset_fresh by (apply H; now left).
+    inversion ND as [|? ? Hk ND']; subst.
+    rewrite IH; [now rewrite <- app_assoc|exact ND'|].
+    intros x Hx. rewrite map_app, kmem_app. simpl. rewrite orb_false_r.
+    rewrite (H x) by now right. simpl.
+    destruct (String.eqb x k) eqn:E; [|reflexivity].
+    apply String.eqb_eq in E. subst. contradiction.
+Qed.
+
+Lemma dict_update_nil_skv qs : NoDup (map fst qs) -> dict_update [] (skv qs) = skv qs.
+Proof.
+  intros H. change (@nil (val * val)) with (skv []). rewrite dict_update_skv.
+  now rewrite abuild_fresh by (auto; intros; reflexivity).
+Qed.
+
+Lemma aget_last_assoc k qs : NoDup (map fst qs) -> last_assoc k qs = aget k qs.
+Proof.
+  induction qs as [|[k' v] r IH]; simpl; intros H; [reflexivity|].
+  inversion H as [|? ? Hk ND]; subst. rewrite (IH ND).
+  destruct (String.eqb k k') eqn:E.
+  - apply String.eqb_eq in E. subst.
+    assert (A : aget k' r = None).
+    { clear -Hk. induction r as [|[k2 v2] r IH]; simpl; [reflexivity|].
+      destruct (String.eqb k' k2) eqn:E.
+      - apply String.eqb_eq in E. subst. exfalso. apply Hk. now left.
+      - apply IH. intros HI. apply Hk. now right. }
+    now rewrite A.
+  - destruct (aget k r); reflexivity.
+Qed.
+
+(** [update] with a parser result: parsed keys win, every other key keeps its value. *)
+Lemma dict_update_str_lookup ctx qs k :
+  NoDup (map fst qs) ->
+  sget k (dict_update ctx (skv qs))
+  = match aget k qs with Some v => Some v | None => sget k ctx end.
+Proof.
+  intros H. unfold sget. rewrite dict_get_update_str. now rewrite aget_last_assoc.
+Qed.
+
+(** * dedup is "first occurrences, in order" *)
+Lemma dedup_In x l : In x (dedup l) <-> In x l.
+Proof.
+  induction l as [|y r IH]; simpl; [tauto|].
+  rewrite filter_In, IH. split.
+  - intros [H|[H _]]; auto.
+  - intros [H|H]; [now left|].
+    destruct (String.eqb y x) eqn:E.
+    + left. now apply String.eqb_eq.
+    + right. split; [exact H|reflexivity].
+Qed.
+
+Lemma NoDup_filter {A} (f : A -> bool) l : NoDup l -> NoDup (filter f l).
+Proof.
+  induction 1 as [|x l Hx ND IH]; simpl; [constructor|].
+  destruct (f x); [|exact IH]. constructor; [|exact IH].
+  intros HI. apply filter_In in HI. tauto.
+Qed.
+
+Lemma dedup_NoDup l : NoDup (dedup l).
+Proof.
+  induction l as [|y r IH]; simpl; constructor.
+  - intros HI. apply filter_In in HI as [_ H]. now rewrite String.eqb_refl in H.
+  - now apply NoDup_filter.
+Qed.
+
+Lemma dedup_nodup_id l : NoDup l -> dedup l = l.
+Proof.
+  induction 1 as [|x l Hx ND IH]; simpl; [reflexivity|]. rewrite IH. f_equal.
+  apply filter_all_in. intros y Hy. destruct (String.eqb x y) eqn:E; [|reflexivity].
+  apply String.eqb_eq in E. subst. contradiction.
+Qed.
+
+(** * keyvaluepairs *)
+Lemma map_kv_pair l : map kv_pair l = skv (map kvs l).
+Proof.
+  unfold skv. rewrite map_map. apply map_ext. intros s. unfold kv_pair, kvs.
+  destruct (kv_of s); reflexivity.
+Qed.
+
+Lemma kvp_dict_alist l : kvp_dict l = skv (abuild [] (map kvs l)).
+Proof. unfold kvp_dict. rewrite map_kv_pair. apply dict_of_pairs_skv. Qed.
+
+Lemma kvp_first_eq_split a b :
+  contains_char eq_char a = false -> kv_of (a ++ String eq_char b) = (a, b).
+Proof. exact (kv_of_split a b). Qed.
+
+Lemma kvp_first_eq_bare s : contains_char eq_char s = false -> kv_of s = (s, "").
+Proof. exact (kv_of_bare s). Qed.
+
+Lemma kvp_lookup k l : sget k (kvp_dict l) = last_assoc k (map kvs l).
+Proof.
+  unfold sget, kvp_dict, dict_of_pairs. rewrite map_kv_pair, dict_get_update_str.
+  destruct (last_assoc k (map kvs l)); reflexivity.
+Qed.
+
+Lemma kvp_last_wins l1 s l2 k v :
+  kv_of s = (k, v) ->
+  (forall s', In s' l2 -> key_of s' <> k) ->
+  sget k (kvp_dict (l1 ++ s :: l2)%list) = Some (VStr v).
+Proof.
+  intros Hs Hno. rewrite kvp_lookup, map_app, last_assoc_app. simpl.
+  rewrite last_assoc_none.
+  - unfold kvs at 1. rewrite Hs. simpl. now rewrite String.eqb_refl.
+  - intros p Hp. apply in_map_iff in Hp as (s' & <- & Hs'). exact (Hno s' Hs').
+Qed.
+
+Lemma kvp_absent l k :
+  (forall s, In s l -> key_of s <> k) -> sget k (kvp_dict l) = None.
+Proof.
+  intros H. rewrite kvp_lookup. apply last_assoc_none.
+  intros p Hp. apply in_map_iff in Hp as (s & <- & Hs). exact (H s Hs).
+Qed.
+
+Lemma kvp_key_order l : dict_keys (kvp_dict l) = map VStr (dedup (map key_of l)).
+Proof.
+  rewrite kvp_dict_alist, dict_keys_skv, abuild_nil_keys. rewrite map_map. reflexivity.
+Qed.
+
+(** * keys *)
+Definition true_pairs (l : list string) : alist := map (fun s => (s, VBool true)) l.
+
+Lemma keys_dict_alist l : keys_dict l = skv (abuild [] (true_pairs l)).
+Proof.
+  unfold keys_dict. rewrite <- dict_of_pairs_skv. f_equal.
+  unfold skv, true_pairs. now rewrite map_map.
+Qed.
+
+Lemma last_assoc_true_pairs k l :
+  last_assoc k (true_pairs l) = if str_in k l then Some (VBool true) else None.
+Proof.
+  induction l as [|x r IH]; simpl; [reflexivity|]. rewrite IH.
+  destruct (str_in k r); [now rewrite orb_true_r|]. rewrite orb_false_r. reflexivity.
+Qed.
+
+Lemma keys_lookup k l : sget k (keys_dict l) = if str_in k l then Some (VBool true) else None.
+Proof.
+  unfold sget, keys_dict, dict_of_pairs.
+  replace (map (fun s => (VStr s, VBool true)) l) with (skv (true_pairs l))
+    by (unfold skv, true_pairs; now rewrite map_map).
+  rewrite dict_get_update_str, last_assoc_true_pairs. destruct (str_in k l); reflexivity.
+Qed.
+
+Lemma keys_key_order l : dict_keys (keys_dict l) = map VStr (dedup l).
+Proof.
+  rewrite keys_dict_alist, dict_keys_skv, abuild_nil_keys. unfold true_pairs.
+  rewrite map_map. simpl. now rewrite map_id.
+Qed.
+
+(** * argskwargs *)
+Lemma akw_fold l : forall d al,
+  fold_left akw_step l (d, al)
+  = (dict_update d (map kv_pair (filter has_eq l)), (al ++ filter no_eq l)%list).
+Proof.
+  induction l as [|s r IH]; intros d al; simpl.
+  - now rewrite app_nil_r.
+  - unfold akw_step at 2. unfold no_eq, has_eq in *.
+    destruct (partition_first eq_char s) as [[k f] v] eqn:P.
+    pose proof (partition_first_found _ _ _ _ _ P) as F. rewrite <- F.
+    destruct f; simpl.
+    + rewrite IH. f_equal. unfold kv_pair, kv_of. rewrite P. reflexivity.
+    + rewrite IH. now rewrite <- app_assoc.
+Qed.
+
+Lemma argskwargs_split l :
+  argskwargs_dict l
+  = sset "argList" (VList (map VStr (filter no_eq l))) (kvp_dict (filter has_eq l)).
+Proof. unfold argskwargs_dict. rewrite akw_fold. reflexivity. Qed.
+
+(** * the one-key parsers *)
+Lemma parse_list_in_order l : parse_list (Some l) = Some [(VStr "argList", VList (map VStr l))].
+Proof. destruct l; reflexivity. Qed.
+
+Lemma parse_string_joined l : parse_string (Some l) = Some [(VStr "argString", VStr (join " " l))].
+Proof. destruct l; reflexivity. Qed.
+
+Lemma append_length (a b : string) : String.length (a ++ b) = String.length a + String.length b.
+Proof. induction a; simpl; auto. Qed.
+
+(** exactly one separator character between consecutive arguments *)
+Lemma join_space_length l :
+  String.length (join " " l) = total_length l + (List.length l - 1).
+Proof.
+  induction l as [|x r IH]; [reflexivity|].
+  destruct r as [|y r'].
+  - simpl. lia.
+  - change (join " " (x :: y :: r')) with (x ++ " " ++ join " " (y :: r')).
+    rewrite !append_length, IH. simpl. lia.
+Qed.
+
+Lemma parse_dict_nested a :
+  parse_dict a
+  = Some [(VStr "argDict",
+           VDict (match parse_keyvaluepairs a with Some d => d | None => [] end))].
+Proof. destruct a as [[|x r]|]; reflexivity. Qed.
+
+(** * totality, determinism, empty shapes *)
+Lemma parsers_total p a : p <> PJson -> exists r, run_parser p a = Ok r.
+Proof. destruct p; intros H; try (eexists; reflexivity). contradiction. Qed.
+
+Lemma parsers_none_is_empty p : run_parser p None = run_parser p (Some []).
+Proof. destruct p; reflexivity. Qed.
+
+Lemma empty_args_shapes a :
+  args_falsy a = true ->
+  run_parser PKeyValuePairs a = Ok None
+  /\ run_parser PKeys a = Ok None
+  /\ run_parser PJson a = Ok None
+  /\ run_parser PList a = Ok (Some [(VStr "argList", VList [])])
+  /\ run_parser PArgsKwargs a = Ok (Some [(VStr "argList", VList [])])
+  /\ run_parser PString a = Ok (Some [(VStr "argString", VStr "")])
+  /\ run_parser PDict a = Ok (Some [(VStr "argDict", VDict [])]).
+Proof.
+  intros H. unfold run_parser, parse_keyvaluepairs, parse_keys, parse_json, parse_list,
+    parse_argskwargs, parse_string, parse_dict. rewrite H. repeat split.
+Qed.
+
+(** every result of a non-json parser is a dict with string keys, each key once *)
+Lemma parser_result_alist p a d :
+  p <> PJson -> run_parser p a = Ok (Some d) ->
+  exists qs, d = skv qs /\ NoDup (map fst qs).
+Proof.
+  intros Hp H. destruct p; try contradiction; simpl in H; inversion H as [H1]; clear H.
+  - unfold parse_keyvaluepairs in H1. destruct (args_falsy a); [discriminate|].
+    inversion H1. rewrite kvp_dict_alist. eexists; split; [reflexivity|].
+    apply abuild_nodup. constructor.
+  - unfold parse_argskwargs in H1. destruct (args_falsy a); inversion H1.
+    + exists [("argList", VList [])]. split; [reflexivity|]. repeat constructor. intros [].
+    + rewrite argskwargs_split, kvp_dict_alist. unfold sset. rewrite dict_set_skv.
+      eexists; split; [reflexivity|]. apply aset_nodup, abuild_nodup. constructor.
+  - unfold parse_dict in H1. destruct (args_falsy a); inversion H1.
+    + exists [("argDict", VDict [])]. split; [reflexivity|]. repeat constructor. intros [].
+    + eexists [("argDict", _)]. split; [reflexivity|]. repeat constructor. intros [].
+  - unfold parse_list in H1. destruct (args_falsy a); inversion H1.
+    + exists [("argList", VList [])]. split; [reflexivity|]. repeat constructor. intros [].
+    + eexists [("argList", _)]. split; [reflexivity|]. repeat constructor. intros [].
+  - unfold parse_string in H1. destruct (args_falsy a); inversion H1.
+    + exists [("argString", VStr "")]. split; [reflexivity|]. repeat constructor. intros [].
+    + eexists [("argString", _)]. split; [reflexivity|]. repeat constructor. intros [].
+  - unfold parse_keys in H1. destruct (args_falsy a); [discriminate|].
+    inversion H1. rewrite keys_dict_alist. eexists; split; [reflexivity|].
+    apply abuild_nodup. constructor.
+Qed.
+
+(** * json *)
+Lemma parse_json_shape x l :
+  parse_json (Some (x :: l))
+  = match json_loads (join " " (x :: l)) with
+    | Ok (VDict d) => Ok (Some d)
+    | Ok _ => Err "TypeError" json_type_error_msg
+    | Err n m => Err n m
+    | Unsup => Unsup
+    end.
+Proof.
+  unfold parse_json. simpl args_falsy. cbv iota. simpl args_list.
+  destruct (json_loads (join " " (x :: l))) as [v| |]; simpl; [|reflexivity|reflexivity].
+  destruct v; reflexivity.
+Qed.
